@@ -122,10 +122,17 @@ pub struct Computed {
     pub div: bool,
     pub form: u8,
     pub commensurable: bool,
+    /// the left factor of the computed operand is a plain number (`(x / z B)`, `(x * z B)`)
+    pub plain_left: bool,
+    /// write the computed operand without parentheses (`x / z B + y U`)
+    pub bare: bool,
 }
 
 pub fn computed_expr(c: &Computed) -> Expr {
-    let prod = Expr::Paren(Box::new(Expr::bin(if c.div { Op::Div } else { Op::Mul }, Expr::Qty(c.x.clone(), c.a.clone()), Expr::Qty(c.z.clone(), c.b.clone()))));
+    let left = if c.plain_left { Expr::Num(c.x.clone()) } else { Expr::Qty(c.x.clone(), c.a.clone()) };
+    let inner = Expr::bin(if c.div { Op::Div } else { Op::Mul }, left, Expr::Qty(c.z.clone(), c.b.clone()));
+    // without parentheses only where the precedence gives the same tree: as the left operand of a sum
+    let prod = if c.bare && c.form == 0 { inner } else { Expr::Paren(Box::new(inner)) };
     let other = Expr::Qty(c.y.clone(), c.u2.clone());
     match c.form {
         0 => Expr::bin(Op::Add, prod, other),
@@ -135,14 +142,23 @@ pub fn computed_expr(c: &Computed) -> Expr {
 }
 
 pub fn computed() -> impl Strategy<Value = Computed> {
-    (free_spelling(2, 2), free_spelling(2, 2), raw_spell(3, 3), any::<bool>(), 0u8..3, prop::option::weighted(0.35, (0usize..8, prop_oneof![Just(1i32), Just(-1)])), lit(), lit(), lit())
-        .prop_map(|(a, b, raw, div, form, perturb, x, z, y)| {
-            let mut dim = crate::units_ref::dim_add(&a.dim(), &b.dim(), if div { -1 } else { 1 });
+    (free_spelling(2, 2), free_spelling(2, 2), raw_spell(3, 3), any::<bool>(), 0u8..3, prop::option::weighted(0.35, (0usize..8, prop_oneof![Just(1i32), Just(-1), Just(2), Just(-2)])), lit(), lit(), lit(), (prop::bool::weighted(0.3), any::<bool>()))
+        .prop_map(|(a, b, raw, div, form, perturb, x, z, y, (plain_left, bare))| {
+            let left_dim = if plain_left { crate::units_ref::ZERO_DIM } else { a.dim() };
+            let right = crate::units_ref::dim_add(&left_dim, &b.dim(), if div { -1 } else { 1 });
+            let mut dim = right;
+            let mut commensurable = true;
             if let Some((i, d)) = perturb {
-                dim[i] += d;
+                if plain_left && div && b.dim() != right {
+                    // a plain number over a quantity: the tempting wrong unit is the divisor's own
+                    dim = b.dim();
+                } else {
+                    dim[i] += d;
+                }
+                commensurable = false;
             }
             let u2 = build_spelling(&raw, &dim);
-            Computed { a, b, u2, x, z, y, div, form, commensurable: perturb.is_none() }
+            Computed { a, b, u2, x, z, y, div, form, commensurable, plain_left, bare }
         })
         .prop_filter("non-empty target", |c| !c.u2.factors.is_empty())
 }
@@ -153,6 +169,9 @@ pub fn computed_case(c: &Computed) -> Option<QCase> {
     let unit = if c.form >= 2 { Some(c.u2.mirror()) } else { None };
     let expect = expect_of(&r, unit.as_ref())?;
     let mut classes = vec!["computed-operand".to_string(), if c.commensurable { "commensurable" } else { "incommensurable" }.to_string()];
+    if c.plain_left {
+        classes.push(if c.div { "plain-number-over-a-quantity" } else { "plain-number-times-a-quantity" }.to_string());
+    }
     classes.push(match c.form { 0 => "add", 1 => "sub", _ => "cast" }.to_string());
     Some(QCase { query: render_canonical(&e), expect, nontrivial: true, classes })
 }
